@@ -66,6 +66,7 @@ type CaseA struct {
 	Pos   string            `json:"pos"`             // interp | expr | vif | attr | get
 	Decoy bool              `json:"decoy,omitempty"` // absent sources exist/are called, but define another key
 	Name  string            `json:"name,omitempty"`  // map data only: the key's name when it is not "kv" (names of default template functions)
+	Site  string            `json:"site,omitempty"`  // where the key is read: "" the page (no layouts) | chain-page | chain-mid | chain-outer: the page, the middle or the outer layout of the chain page.vuego -> layouts/post.vuego -> layouts/base.vuego (Have may then contain "lmid" / "louter": the key in the front-matter of the middle / outer layout)
 	Ext   string            `json:"ext,omitempty"`   // names of the data files: "" a.yml+b.yml | yaml+yml | yml+yaml | yaml+yaml | samestem (c.yaml+c.yml)
 }
 
@@ -121,7 +122,16 @@ var funcNames = []string{"title", "default", "escape", "json", "upper", "len", "
 func isNull(v vals.V) bool { return v.K == "nil" }
 
 // winner is the reference model: the first present source in the documented order.
+//
+// Layout chains (docs/themes.md: each layout renders and passes its output to the parent layout
+// as `content`; layouts print the page's variables such as {{ title }}): a file of the chain sees
+// its OWN front-matter first and then what the page sees (page front-matter > Assign > Fill >
+// data/*.yml > theme.yml). The front-matter of another layout of the chain is not a source for it.
 func (c CaseA) winner() (string, vals.V, bool) {
+	own := map[string]string{"chain-mid": "lmid", "chain-outer": "louter"}[c.Site]
+	if own != "" && c.has(own) {
+		return own, c.Vals[own], true
+	}
 	for _, s := range order {
 		if c.has(s) {
 			return s, c.Vals[s], true
@@ -519,6 +529,27 @@ func (c CaseA) files() map[string]string {
 		page = "---\nzother: decoyfm\n---\n"
 	}
 	f["page.vuego"] = page + c.body()
+	if c.Site != "" {
+		// page.vuego -> layouts/post.vuego -> layouts/base.vuego; the read markup sits in one of them
+		const slot = `<div v-html="content"></div>` + "\n"
+		pfm := "layout: post\n"
+		if c.has("fm") {
+			pfm += yamlOf(k, c.Vals["fm"])
+		}
+		bodies := map[string]string{"chain-page": "<p>page</p>\n", "chain-mid": "<section>middle</section>\n", "chain-outer": "<main>outer</main>\n"}
+		bodies[c.Site] = c.body()
+		f["page.vuego"] = "---\n" + pfm + "---\n" + bodies["chain-page"]
+		mfm := "layout: base\n"
+		if c.has("lmid") {
+			mfm += yamlOf(k, c.Vals["lmid"])
+		}
+		f["layouts/post.vuego"] = "---\n" + mfm + "---\n" + bodies["chain-mid"] + slot
+		ofm := ""
+		if c.has("louter") {
+			ofm = "---\n" + yamlOf(k, c.Vals["louter"]) + "---\n"
+		}
+		f["layouts/base.vuego"] = ofm + bodies["chain-outer"] + slot
+	}
 	daName, dbName, _ := dataNames(c.Ext)
 	for _, sn := range [][2]string{{"da", daName}, {"db", dbName}, {"theme", "theme.yml"}} {
 		src, name := sn[0], sn[1]
@@ -538,6 +569,9 @@ func checkA(c CaseA) error {
 		if !ok {
 			return fmt.Errorf("malformed case: source %q has no value", s)
 		}
+		if (s == "lmid" || s == "louter") && (c.Site == "" || c.VType != "string" || isZero(v)) {
+			return fmt.Errorf("malformed case: layout front-matter sources need a chain site and a string value")
+		}
 		if isNull(v) {
 			if c.Fill != "map" || c.VType != "string" {
 				return fmt.Errorf("malformed case: null values are only used with map data and vtype string")
@@ -556,6 +590,14 @@ func checkA(c CaseA) error {
 	}
 	if _, _, err := dataNames(c.Ext); err != nil {
 		return err
+	}
+	switch c.Site {
+	case "", "chain-page", "chain-mid", "chain-outer":
+	default:
+		return fmt.Errorf("malformed case: site %q", c.Site)
+	}
+	if c.Site != "" && (c.Decoy || (c.Pos == "get" && c.Site != "chain-page")) {
+		return fmt.Errorf("malformed case: chain sites take no decoys, and Get reads the page")
 	}
 	k := c.key()
 	wsrc, wv, any := c.winner()
@@ -600,6 +642,9 @@ func checkA(c CaseA) error {
 			}
 			for _, tok := range tokens(c.Vals[s]) {
 				if tok != "" && strings.Contains(got, tok) {
+					if s == "lmid" || s == "louter" {
+						return fmt.Errorf("%s (read site %s): saw %q, which contains the value from the front-matter of another layout of the chain (%s), which is not a source for this file", desc, c.Site, got, s)
+					}
 					return fmt.Errorf("%s: saw %q, which contains the value given by the lower-precedence source %q", desc, got, s)
 				}
 			}
@@ -834,6 +879,39 @@ func enumA(f func(c CaseA, excluded string) bool) {
 				have = append(have, s)
 			}
 		}
+		// read sites inside a layout chain page -> layouts/post -> layouts/base, with the key also
+		// (or only) in the front-matter of the middle and/or outer layout
+		for _, site := range []string{"chain-page", "chain-mid", "chain-outer"} {
+			for lm := 0; lm < 4; lm++ {
+				h2 := append([]string(nil), have...)
+				vs := map[string]vals.V{}
+				for _, s := range have {
+					vs[s] = canon("string", s, 0)
+				}
+				if lm&1 != 0 {
+					h2 = append(h2, "lmid")
+					vs["lmid"] = vals.Str("vlmid")
+				}
+				if lm&2 != 0 {
+					h2 = append(h2, "louter")
+					vs["louter"] = vals.Str("vlouter")
+				}
+				for _, fm := range [][2]string{{"map", "key"}, {"struct", "tag"}} {
+					for _, pos := range positions {
+						if pos == "get" && site != "chain-page" {
+							continue // Get reads the page template, not a layout
+						}
+						c := CaseA{Have: h2, Vals: vs, VType: "string", Ctor: "newfs", Fill: fm[0], Addr: fm[1], Pos: pos, Site: site}
+						if _, _, any := c.winner(); !any && pos == "expr" {
+							continue
+						}
+						if !f(c, excludedA(known, c)) {
+							return
+						}
+					}
+				}
+			}
+		}
 		// variables named like template functions (map data), with string values and with a null
 		// given by the winning source; and null winners for the ordinary key as well
 		for _, name := range append([]string{""}, funcNames...) {
@@ -975,6 +1053,20 @@ func classifyA(c CaseA) (bool, []string) {
 	}
 	if c.Name != "" {
 		cls = append(cls, "key-named-like-a-template-function")
+	}
+	if c.Site != "" {
+		cls = append(cls, "site="+c.Site)
+		if c.has("lmid") {
+			cls = append(cls, "middle-layout-front-matter-defines-key")
+		}
+		if c.has("louter") {
+			cls = append(cls, "outer-layout-front-matter-defines-key")
+		}
+		if c.Site == "chain-outer" && c.has("lmid") && !c.has("louter") {
+			cls = append(cls, "outer-layout-reads-key-that-only-the-middle-layout-defines-in-the-chain")
+		}
+	} else {
+		cls = append(cls, "site=page-without-layout")
 	}
 	if _, wv, ok := c.winner(); ok && isNull(wv) {
 		cls = append(cls, "winner-gives-null", "null-from="+w)
